@@ -953,3 +953,41 @@ CHECKS["C18"]["note"] = (
     'delay states are accepted as N[i] or N[i,1]. Values only on the grid. One defect family is reported under a '
     'fixed signature (component-parameter attribute in a component array), see known_findings.'
 )
+
+CHECKS["C16"]["text"] = (
+    'Every alias tree over v1..vn (every labeled tree, both orientations of every link, link forms `a = b`, `a = '
+    '-b`, `a - b = 0`, `a + b = 0`, every order of the equation list; v1 a state / algebraic / input, the rest '
+    'algebraic) crossed with (i) every set of <= k explicit attributes (min, max, nominal from 2-value grids, fixed '
+    'false/true, start numeric / 0 / parameter p) placed anywhere on the variables and (ii) merge matrices: one '
+    'profile per variable, every combination over the variables, of start {absent, a, b, -a, 0, p, -p} x fixed '
+    '{absent, true} (SF), of bounds {none, min, max, both} (BD), and SF x one further min / max / nominal (SFP) -- '
+    'every (survivor, alias) pair meets every combination the merge loop branches on (own start absent / present x '
+    'alias start absent / equal / different / negated / zero / symbolic x fixed on either side; one-sided / '
+    'two-sided bounds x sign) whichever variable pymoca keeps; generated and simplified as _compile_model does '
+    "(generate + simplify({'detect_aliases': True})). Histories: every split of a tree's links into early and late "
+    'ones, the late ones being alias equations only for a second pass -- H2: simplify({detect_aliases}); '
+    'simplify({replace_constant_values, detect_aliases}) with late links `a = (-)b + c`, constant c = 0; HI: '
+    'simplify({detect_aliases, iterative_simplification}) with late links `a = (-)b + (u -/+ w)`, `u = (-)w` an '
+    'early link. Reference: signed union-find of the written equations (early and late); the surviving variable is '
+    'read from the model after the last pass; its min/max (sign-swapped intersection), nominal (largest), fixed '
+    "(any), start (own kept, else some alias's, sign-adjusted) are compared on the Variable and in "
+    'variable_metadata_function; alias_relation, canonical_signed and Variable.aliases are compared with the '
+    'union-find (membership and signs; no listed alias may still be a model variable). quick: n=2 full structures x '
+    '{<=2 attributes, SF, BD}, plain forms x SFP; n=3 full x 0, plain forms x 1, plain forms in one equation order '
+    'x 2, tree x signs x {SF, BD with reduced alphabets}; H2 and HI on n=3 plain forms in one order x every split x '
+    '<=1 attribute (105 960 programs, 11 520 completed by the second pass). thorough: n=2 full x <=3 and SF, BD, '
+    'plain x SF x BD; n=3 full x <=2, plain x 3, one-order x {SF, BD}; n=4 full x 0, one-order x 1, tree x signs x '
+    '2 and x 3; H2 and HI on n=3 one-order x <=1, n=3 tree x signs x {2 attributes, SF}, n=4 tree x signs x <=1 (2 '
+    '598 144 programs). The per-level table is in the evidence (`levels`).'
+)
+
+CHECKS["C16"]["note"] = (
+    'The survivor is not prescribed; with several explicit alias starts any is accepted; a class mixing explicit '
+    "and absent nominals may report max(explicit) (absent = 0, pymoca's convention, "
+    'test_simplify_alias_small_nominal) or max(1, explicit) (Modelica default); one state-or-input per class at '
+    'most; attributes are literals or one parameter (p, -p); a late link `a = s b + 0` is taken to state a = s b; '
+    'at most two passes, made by replace_constant_values or by iterative_simplification only; completeness of alias '
+    '*detection* is not demanded (C14/C15), only counted. The matrices are crossed with each other only at n=2 in '
+    'thorough; n=3 matrices and n=4 with >= 2 attributes are complete only over the reduced structure sets named in '
+    'the evidence.'
+)
